@@ -64,8 +64,8 @@ def replay(f):
             g0 = tr.graph.copy()
             S0 = snapshot(tr)
             raw0 = {n: copy.deepcopy(dict(d)) for n, d in tr.graph.nodes(data=True)}
-            fd0 = (dict(tr.features), tr.features.time_key, str(tr.features.position_key), tr.features.tracklet_key,
-                   tr.features.lineage_key)
+            fd0 = (copy.deepcopy({k: dict(v) for k, v in tr.features.items()}), tr.features.time_key,
+                   str(tr.features.position_key), tr.features.tracklet_key, tr.features.lineage_key)
             scale0 = copy.deepcopy(tr.scale)
             emitted = []
             tr.refresh.connect(lambda *a: emitted.append(a))
@@ -113,7 +113,7 @@ def replay(f):
                     "attrs_unchanged": _same_raw(raw0, raw1),
                     "lookups_unchanged": same_lookups(S0, S1),
                     "history_unchanged": same_history(S0, S1) and not emitted,
-                    "registry_unchanged": fd0 == (dict(tr.features), tr.features.time_key,
+                    "registry_unchanged": fd0 == ({k: dict(v) for k, v in tr.features.items()}, tr.features.time_key,
                                                   str(tr.features.position_key), tr.features.tracklet_key,
                                                   tr.features.lineage_key) and S0["counter"] == S1["counter"],
                     "scale_unchanged": _same_scale(scale0, tr.scale),
